@@ -15,6 +15,8 @@ class Crate:
         fns = self.prog.d["fns"]
         # phase 1: safe private helpers
         self.inlined, self.inlined_away = inline_helpers(fns, self.prog.summaries, self.prog.pretty)
+        from .inline import inline_closure_calls
+        self.inlined_closures = inline_closure_calls(fns)
         self._an = {}
         self._fx = {}
         self.entry_facts_hook = None   # callable(crate, an) -> list of atoms
